@@ -18,13 +18,25 @@ def loop_verdicts(repo) -> Dict[str, List[str]]:
     if id(repo) in _CACHE:
         return _CACHE[id(repo)]
     V: Dict[str, List[str]] = {k: [] for k in ("label_content", "label_content_resume", "stop", "final_once", "save_flag", "cursor", "clear",
-                                                 "first_frame_records", "cancel", "clock", "fresh_data", "update_args")}
+                                                 "first_frame_records", "cancel", "clock", "fresh_data", "update_args", "errors")}
     traces = stage_traces(repo)
     n_saves = 0
     for t in traces:
         sc = t.scenario
         tag = _tag(sc)
         k, N = sc["save_every"], sc["steps"]
+        if sc.get("error"):
+            # an error raised by the update function or the frame writer leaves the stage as that error, and nothing runs after it
+            reached = bool(t.kinds("INTERRUPT"))
+            if reached:
+                idx_ = next(i for i, e in enumerate(t.events) if e.kind == "INTERRUPT")
+                later = [e for e in t.events[idx_ + 1:] if e.kind == "UPDATE"]
+                if t.outcome[0] != "raise" or sc["error"] not in str(t.outcome[1]):
+                    V["errors"].append(f"[{tag}] a {sc['error']} raised during the {sc['interrupt'][0]} does not leave the stage: it ends with "
+                                       f"{t.outcome[0]} {t.outcome[1]!r}")
+                elif later:
+                    V["errors"].append(f"[{tag}] {len(later)} update(s) run after the {sc['error']}")
+            continue
         if t.outcome[0] != "return":
             periodic = len([i for i in range(0, N + 1) if i % k == 0])
             if sc["interrupt"] == ("save", periodic) and N % k != 0 and str(t.outcome[1]) == "KeyboardInterrupt":
@@ -125,12 +137,20 @@ def run_verdicts(repo) -> Dict[str, List[str]]:
     key = ("run", id(repo))
     if key in _CACHE:
         return _CACHE[key]
-    V: Dict[str, List[str]] = {k: [] for k in ("thermal_unsaved", "clock_reset", "buffer_reset", "result")}
+    V: Dict[str, List[str]] = {k: [] for k in ("thermal_unsaved", "clock_reset", "buffer_reset", "result", "errors")}
     for t in run_traces(repo):
         sc = t.scenario
         tag = _tag(sc)
         evs = t.events
         skip_steps = int(round(sc["skip_time"] / DT))
+        if sc.get("error"):
+            idx_ = next((i for i, e in enumerate(evs) if e.kind == "INTERRUPT"), None)
+            if idx_ is not None:
+                later = [e for e in evs[idx_ + 1:] if e.kind == "UPDATE"]
+                if t.outcome[0] != "raise" or sc["error"] not in str(t.outcome[1]) or later:
+                    V["errors"].append(f"[{tag}] a {sc['error']} in update {sc['interrupt'][1]} does not end run(): {t.outcome[0]} {t.outcome[1]!r}, "
+                                       f"{len(later)} update(s) afterwards")
+            continue
         if t.outcome[0] != "return":
             V["result"].append(f"[{tag}] run() raises {t.outcome[1]}")
             continue
